@@ -28,11 +28,16 @@ func init() {
 					Type: "symbol|lambda",
 					Text: "The function to call for each entry in _sequences_.",
 				},
+				{
+					Name: "sequence",
+					Type: "sequence",
+					Text: "The first sequence to iterate over.",
+				},
 				{Name: "&rest"},
 				{
 					Name: "sequences",
 					Type: "sequence",
-					Text: "The sequences to iterate over.",
+					Text: "The other sequences to iterate over.",
 				},
 			},
 			Return: "nil",
